@@ -55,3 +55,11 @@ chk(
     "runtime monitoring: result certification of the real pass's output (enumeration of the chosen layout against a reference address function)",
     "DESIGN.md section 3 C09",
 )
+chk(
+    "C02",
+    "translation_validation",
+    "Generated dart.operation ops (alu, gemmx matmul/gemm/rescale/conv-like, xdma add; compiler-chosen tiled/untiled layouts, given strided and #tsl layouts) are pushed through the real scheduler, layout passes, dart-layout-resolution and convert-dart-to-snax-stream; the dart.schedule entering layout resolution and the final snax_stream.streaming_region are captured at the pass boundary; for every operand the byte set the schedule assigns to each temporal step (reference layout function, incl. the layout offset) is compared with the byte set a streamer machine fetches for that step (temporal nest x spatial ports x 8-byte words).",
+    TB + "streamer machine (address generation loop of the StridePattern docstring / streamer.md), reference layout function; compiler refusals and conversions that emit the converter's non-contiguous warning are counted, not judged; four known findings are attributed by predicate + counterfactual.",
+    "runtime monitoring: pass-boundary capture plus enumeration of the generated address streams on an abstract streamer, compared step by step with the scheduled element stream",
+    "DESIGN.md section 3 C02",
+)
